@@ -1137,6 +1137,29 @@ def _example_value(text, pmap):
     return text
 
 
+def concrete_c16_rdf(c):
+    """run A: base; run B: namespaces_to_ignore = [the rdf: namespace].  Class membership is still read from the full graph: the same shapes with the same
+    instance counts; the constraints are those of A minus the ones whose predicate is a direct child of the rdf: namespace (here: rdf:type)."""
+    RDFNS = "http://www.w3.org/1999/02/22-rdf-syntax-ns#"
+    a, b = c["schemas"]
+    problems = []
+    va, vb = statements_view(a), statements_view(b)
+    want = {label: {k: v for k, v in d.items() if not (k[1].startswith(RDFNS) and "/" not in k[1][len(RDFNS):] and "#" not in k[1][len(RDFNS):])} for label, d in va.items()}
+    for what, bad, cls in _views_equal(want, vb, "namespaces_to_ignore=[rdf:] (beyond removing the rdf: constraints)"):
+        problems.append(what)
+    na = {sh.label: sh.n_instances.text if sh.n_instances is not None else None for sh in a.shapes}
+    nb = {sh.label: sh.n_instances.text if sh.n_instances is not None else None for sh in b.shapes}
+    if na != nb and not problems:
+        problems.append("namespaces_to_ignore=[rdf:] changes the instance counts: %r vs %r" % (na, nb))
+    fa, fb = facts(a), facts(b)
+    for k in set(fa) & set(fb):
+        if (fa[k][0].text if fa[k][0] is not None else None, fa[k][1].text if fa[k][1] is not None else None) != \
+                (fb[k][0].text if fb[k][0] is not None else None, fb[k][1].text if fb[k][1] is not None else None):
+            problems.append("namespaces_to_ignore=[rdf:] changes the figures of %r" % (k[:5],))
+            break
+    return problems
+
+
 def concrete_same_output(c):
     """run A vs run B must state the same shapes, constraints and figures (an option that must change nothing on this input)."""
     return _run_symbolic_judge_concretely(_judge_identical, c)
@@ -1159,7 +1182,7 @@ def _judge_identical(ctx, ex):
 
 JUDGES = {
     "C01": [judge_c01], "C02": [judge_c02], "C04": [], "C05": [judge_c05], "C12": [judge_c12], "C12z": [judge_c12_zero], "C12o": [judge_c12_one],
-    "C14": [judge_c14], "C11": [judge_c11], "C13": [judge_c13], "C03": [judge_c03], "C18": [judge_c18], "C09": [judge_c09], "C17e": [], "SAME": [],
+    "C14": [judge_c14], "C11": [judge_c11], "C13": [judge_c13], "C03": [judge_c03], "C18": [judge_c18], "C09": [judge_c09], "C17e": [], "SAME": [], "C16rdf": [],
 }
 
 
@@ -1222,4 +1245,5 @@ CONCRETE = {
     "C09": lambda c: _run_symbolic_judge_concretely(judge_c09, c),
     "C17e": concrete_c17,
     "SAME": concrete_same_output,
+    "C16rdf": concrete_c16_rdf,
 }
